@@ -127,6 +127,7 @@ int __wrap_getaddrinfo(const char *node, const char *service, const struct addri
     for (int i = 0; i < n; i++) {
         struct sockaddr_in *sa = calloc(1, sizeof *sa); struct addrinfo *ai = calloc(1, sizeof *ai);
         sa->sin_family = AF_INET; sa->sin_port = htons(service ? atoi(service) : 0); sa->sin_addr.s_addr = htonl(0x7f000001 + i);
+        if (node) strncpy((char *)sa->sin_zero, node, sizeof sa->sin_zero - 1);     /* lets CONNECT name the device's host */
         ai->ai_family = AF_INET; ai->ai_socktype = SOCK_STREAM; ai->ai_addr = (struct sockaddr *)sa; ai->ai_addrlen = sizeof *sa;
         *tail = ai; tail = &ai->ai_next;
     }
@@ -167,7 +168,8 @@ int __wrap_connect(int fd, const struct sockaddr *a, socklen_t l)
     struct vfd *v = vf(fd);
     int plan = cplan_i < cplan_n ? cplan[cplan_i++] : cplan_default;
     const char *pn[] = { "inprogress-ok", "ok-now", "syncfail", "inprogress-refuse-hup", "inprogress-refuse-soerr", "inprogress-pending" };
-    tr("CONNECT %s addr=%u plan=%s", kname(v), (unsigned)(ntohl(((const struct sockaddr_in *)a)->sin_addr.s_addr) - 0x7f000001), pn[plan]);
+    tr("CONNECT %s addr=%u plan=%s host=%.7s", kname(v), (unsigned)(ntohl(((const struct sockaddr_in *)a)->sin_addr.s_addr) - 0x7f000001), pn[plan],
+       ((const struct sockaddr_in *)a)->sin_zero[0] ? (const char *)((const struct sockaddr_in *)a)->sin_zero : "-");
     switch (plan) {
     case CP_OK_NOW: v->cs = CS_OK; return 0;
     case CP_SYNCFAIL: errno = ENETUNREACH; return -1;
@@ -336,7 +338,16 @@ int __wrap_poll(struct pollfd *p, nfds_t n, int tmo)
     }
     if (feof(stdin)) { tr("STDIN-EOF"); fflush(out); raise(SIGTERM); }
 
-    return compute_ready(p, n);
+    int nready = compute_ready(p, n);
+    /* what this poll call returns (the input of the pass that follows): i=IN o=OUT h=HUP e=ERR n=NVAL */
+    fprintf(out, "REV now=%lld", now_us - T0);
+    for (nfds_t i = 0; i < n; i++) if (IS(p[i].fd) && p[i].revents) {
+        short r = p[i].revents;
+        fprintf(out, " %s:%s%s%s%s%s", vf(p[i].fd)->k == K_FREE ? "CLOSED" : kname(vf(p[i].fd)), (r & POLLIN) ? "i" : "", (r & POLLOUT) ? "o" : "",
+                (r & POLLHUP) ? "h" : "", (r & POLLERR) ? "e" : "", (r & POLLNVAL) ? "n" : "");
+    }
+    fputc('\n', out);
+    return nready;
 }
 
 int pm_main(int, char **);
